@@ -190,11 +190,29 @@ def rule_types(ck, F):
     ck.sample({'rule': 'S5', 'mutating_methods': sorted(muts)})
 
 
+def rule_stack(ck, F):
+    """S6: how much stack the calling thread has left is an input the property does not allow (threads of one process differ in it): the depth of
+    the call stack must not depend on the data, i.e. the call graph of the three crates has no cycle."""
+    from ..callgraph import callgraph
+    cg = callgraph(F)
+    nodes = set(n for n, b in F.bodies.items() if b['kind'] not in ('Const', 'Static', 'Promoted'))
+    ck.rule('S6', 'no call cycle in the three crates: the stack depth of a call is bounded independently of the data, so the stack the calling thread has left cannot decide the outcome')
+    rec = cg.recursive_components(nodes)
+    for comp in rec:
+        b = F.bodies[sorted(comp)[0]]
+        ck.violation('S6', 'norec : %s' % short_fn(sorted(comp)[0]), {'file': b['span']['file'], 'line': b['span']['line'], 'function': sorted(comp)[0]},
+                     'recursive call cycle (depth decided by the input; the outcome then depends on the stack of the calling thread): %s' % ', '.join(short_fn(c) for c in comp))
+    if not rec:
+        ck.ok('S6', 'call graph acyclic (%d functions)' % len(nodes))
+    ck.count('functions_in_call_graph', len(nodes))
+    ck.floor('functions in the call graph', len(nodes), 150)
+
+
 def run(ck, F, tier):
     ck.explanation = ('C17 decided structurally on MIR/HIR/type facts of all three crates: S1 statics immutable+Freeze (lazy_static cells: pure '
                       'constant initialiser), S2 zero unsafe/extern, S3 mod/ref effect summaries (no static written, public entry points write '
                       'only through their &mut params), S4 denylist of nondeterminism sources over every external call site (HashMap: keyed '
-                      'access only), S5 transitive field walk of the per-instance types. The same rules are run on a fixture crate of '
+                      'access only), S5 transitive field walk of the per-instance types, S6 no call cycle (the stack left to the calling thread cannot decide an outcome). The same rules are run on a fixture crate of '
                       'deliberately bad constructs on every run and must fire there (positive control).')
     ck.assumptions += ['dependency crates (wide, bytemuck, bitflags, lazy_static, num-traits, itertools, thiserror) are deterministic and keep no observable global state',
                        'std HashMap keyed operations (get/insert/remove/len) do not depend on the hasher seed observably']
@@ -203,11 +221,16 @@ def run(ck, F, tier):
     rule_effects(ck, F)
     nh = rule_denylist(ck, F)
     rule_types(ck, F)
+    rule_stack(ck, F)
     # "a pure function of the options and the bytes supplied": the only condition of the source that ends a picture early and still succeeds is end of data
     # (C15's rule EK); any other transient I/O condition must fail the call, which then changes nothing (C05), so where a source pauses cannot show in the output
     from . import c15
     from ..report import Scoped
     c15.eof_classification(Scoped(ck, 'C15.'), F)
+    # .. and the bits handed to the parsers are a function of the bytes alone, not of where earlier commits left the ring buffer: the assembly loop of
+    # peek_bits walks the buffered bytes from byte bits_read / 8 on, in order (C14's rule H)
+    from . import c14
+    c14.h_msb_first(Scoped(ck, 'C14.'), F)
     ck.floor('HashMap call sites screened', nh, 5)
     # "a pure function of ... the sequence of bytes supplied": the only input channel is std::io::Read, whose `read` may split the same
     # byte sequence differently from call to call (sockets, pipes). The result is independent of that splitting only if the source is
